@@ -30,6 +30,24 @@ import re
 
 from harness.fw import Check, Driver, VERIF
 
+# hand-modelled functions (normalised-AST hashes in gen/pins.json; a change escalates the search, it is not a verdict)
+PINS = [("androguard/decompiler/control_flow.py", "short_circuit_struct"),
+        ("androguard/decompiler/control_flow.py", "short_circuit_struct.MergeNodes"),
+        ("androguard/decompiler/basic_blocks.py", "Condition.neg"),
+        ("androguard/decompiler/basic_blocks.py", "Condition.visit"),
+        ("androguard/decompiler/basic_blocks.py", "ShortCircuitBlock.__init__"),
+        ("androguard/decompiler/basic_blocks.py", "ShortCircuitBlock.neg"),
+        ("androguard/decompiler/basic_blocks.py", "ShortCircuitBlock.visit_cond"),
+        ("androguard/decompiler/basic_blocks.py", "CondBlock.neg"),
+        ("androguard/decompiler/basic_blocks.py", "CondBlock.visit_cond"),
+        ("androguard/decompiler/writer.py", "Writer.visit_node"),
+        ("androguard/decompiler/writer.py", "Writer.visit_cond_node"),
+        ("androguard/decompiler/writer.py", "Writer.visit_short_circuit_condition"),
+        ("androguard/decompiler/writer.py", "Writer.visit_cond_expression"),
+        ("androguard/decompiler/writer.py", "Writer.visit_condz_expression"),
+        ("androguard/decompiler/instruction.py", "ConditionalExpression.neg"),
+        ("androguard/decompiler/instruction.py", "ConditionalZExpression.neg")]
+
 OPS = ["==", "!=", "<", "<=", ">=", ">"]
 KINDS = ["bin", "zint", "zbool"]
 KIND_OPS = {"bin": OPS, "zint": OPS, "zbool": ["==", "!="]}
@@ -238,6 +256,33 @@ def walk_merged(g, env, limit):
             n = g.sucs(n)[0]
         else:
             n = n.true if ev_node(n, env) else n.false
+        steps += 1
+        if steps > limit:
+            return "diverge"
+    return n.name
+
+
+def print_all(g):
+    """print every conditional node of the graph ONCE through a real Writer (node.visit_cond) and parse the text"""
+    wr = _real()[4]
+    w = wr.Writer(g, _Method())
+    out = {}
+    for n in g.nodes:
+        if n.type.is_cond:
+            start = len(w.buffer)
+            n.visit_cond(w)
+            out[n] = parse_cond("".join(str(x) for x in w.buffer[start:]))
+    return out
+
+
+def walk_printed(g, asts, env, limit):
+    """entry-to-exit routing of the merged graph when every node branches as its PRINTED text says"""
+    n, steps = g.entry, 0
+    while n.type.is_cond or n.type.is_stmt:
+        if n.type.is_stmt:
+            n = g.sucs(n)[0]
+        else:
+            n = n.true if truthy(ev_ast(asts[n], env)) else n.false
         steps += 1
         if steps > limit:
             return "diverge"
@@ -467,8 +512,25 @@ def check_case(ck: Check, spec, want_writer=True, o2=True):
             if exp != got:
                 ck.fail({"spec": spec, "stage": "struct", "env": list(env)},
                         "after short_circuit_struct the graph routes an input to another exit than the original chain",
-                        "entry-merged-as-second" if entry_merged_second(spec, trace) else None, exp, got)
+                        None, exp, got)
                 break
+        else:
+            # the same routing question through the text the writer prints for each node of the merged graph
+            lim = 4 * (len(spec["conds"]) + len(spec.get("stmts", []))) + 4
+            try:
+                asts = print_all(g)
+            except ValueError as e:
+                asts = None
+                ck.fail({"spec": spec, "stage": "struct-print"}, "printed condition is not a boolean expression", None,
+                        "parsable", str(e))
+            for env in envs if asts is not None else ():
+                exp = walk(spec, env, entry)
+                got = walk_printed(g, asts, env, lim)
+                if exp != got:
+                    ck.fail({"spec": spec, "stage": "struct-print", "env": list(env)},
+                            "entering the method, the printed conditions of the merged graph lead to another exit than the original branches",
+                            None, exp, got)
+                    break
     if not want_writer:
         return reqs, real, info
     # ---- stage B: identify_structures + Writer
@@ -536,10 +598,6 @@ def check_case(ck: Check, spec, want_writer=True, o2=True):
     return reqs, real, info
 
 
-def entry_merged_second(spec, trace):
-    return False
-
-
 def acyclic(spec):
     color = {}
 
@@ -589,6 +647,70 @@ def gen_exhaustive(k, m, rng, back_edges):
             c[0] = rng.choice(["bin", "bin", "zint", "zbool"])
             c[1] = rng.choice(KIND_OPS[c[0]])
         yield spec
+
+
+def gen_canonical(k, m, rng):
+    """ALL graphs of k conditional nodes over <= m exits, back edges included (every target ranges over every
+    conditional node and every exit), up to renaming: nodes numbered in depth-first discovery order from the entry c0
+    (true branch first), exits in first-use order, every node reachable.  Yields (spec, entry_is_loop_header)."""
+    names_c = ["c%d" % i for i in range(k)]
+    names_e = ["e%d" % j for j in range(m)]
+    tg = names_c + names_e
+    pairs = [(t, f) for t in tg for f in tg]
+    for combo in itertools.product(pairs, repeat=k):
+        order, eorder, seen = [], [], set()
+        stack = ["c0"]
+        while stack:                                  # iterative pre-order, true before false
+            x = stack.pop()
+            if x in seen:
+                continue
+            seen.add(x)
+            if x[0] == "e":
+                eorder.append(x)
+                continue
+            order.append(x)
+            t, f = combo[int(x[1:])]
+            stack.append(f); stack.append(t)
+        if order != names_c or eorder != names_e[:len(eorder)]:
+            continue
+        conds = []
+        for (t, f) in combo:
+            kind = rng.choice(["bin", "bin", "zint", "zbool"])
+            conds.append([kind, rng.choice(KIND_OPS[kind]), t, f])
+        yield {"conds": conds, "exits": m}, any("c0" in p for p in combo)
+
+
+def gen_random_cyclic(rng, k, ns, m):
+    """random graph of k conditional nodes and ns empty statement nodes; every conditional target is drawn uniformly
+    from all conditional nodes, statement nodes and exits (so back edges, also to the entry c0, are common);
+    statement nodes lead to a conditional node or an exit"""
+    tg = ["c%d" % j for j in range(k)] + ["s%d" % j for j in range(ns)] + ["e%d" % j for j in range(m)]
+    conds = []
+    for i in range(k):
+        kind = rng.choice(["bin", "bin", "zint", "zbool"])
+        conds.append([kind, rng.choice(KIND_OPS[kind]), rng.choice(tg), rng.choice(tg)])
+    stmts = [rng.choice(["c%d" % j for j in range(k)] * 3 + ["e%d" % j for j in range(m)]) for _ in range(ns)]
+    spec = {"conds": conds, "exits": m}
+    if ns:
+        spec["stmts"] = stmts
+    return spec
+
+
+class _Collect:
+    """stands in for Check inside worker processes"""
+    def __init__(self):
+        self.failures = []
+
+    def fail(self, case, what, key=None, expected=None, observed=None):
+        self.failures.append((case, what, key, expected, observed))
+
+
+def _work(job):
+    spec, ww, o2 = job
+    c = _Collect()
+    rq, rl, info = check_case(c, spec, want_writer=ww, o2=o2)
+    info.pop("o2_text", None)
+    return rq, rl, info, c.failures
 
 
 def gen_loop(shape, k, rng):
@@ -657,16 +779,24 @@ def corpus_cases():
 
 def run(ck: Check):
     import time
+    import multiprocessing
     t0 = time.time()
+    ck.pins_changed(PINS)                  # a modelled function changed: thorough sizes even in the quick tier
+    if os.environ.get("VERIF_NO_ESCALATE"):
+        ck.escalated = False
+    big = (not ck.quick) or ck.escalated
     ck.run_gen("conds")
+    ck.run_gen("scstruct")
     ck.prove(exes=["drv_C25"])
     drv = Driver("drv_C25")
     t1 = time.time()
     rng = ck.rng
     ck.rule = ("chain graph = k real CondBlocks (one real Conditional[Z]Expression each) + m ReturnBlocks; exhaustive: every "
                "assignment of (true,false) targets for k=2,3 over <=3 exits, forward edges (and with back edges for the "
-               "graph-level oracle), all nodes reachable, exits named in first-use order; random: chains of 4..9 nodes with "
-               "random polarity and skip edges, random graphs; every case is evaluated under every ordering of every "
+               "graph-level oracles), all nodes reachable, exits named in first-use order; k=4 over <=2 exits with back edges "
+               "up to renaming (quick: all graphs whose entry is a loop header + 20% of the rest); random: chains of 4..9 nodes "
+               "with random polarity and skip edges, random graphs, random cyclic graphs of 4..7 conditions with statement "
+               "nodes in between; every case is evaluated under every ordering of every "
                "leaf's operands (3^k, 2 for boolean leaves). distinct = distinct (routing structure, operators); "
                "non-trivial = at least one merge happened")
     specs = []          # (spec, want_writer, family)
@@ -679,16 +809,24 @@ def run(ck: Check):
     for sp in gen_exhaustive(2, 3, rng, back_edges=True):
         if not acyclic(sp):
             specs.append((sp, False, "exh-back-k2"))
-    for sp in gen_exhaustive(3, 2 if ck.quick else 3, rng, back_edges=True):
+    for sp in gen_exhaustive(3, 3 if big else 2, rng, back_edges=True):
         if not acyclic(sp):
             specs.append((sp, False, "exh-back-k3"))
     for shape in "WDB":
         for k in (2, 3):
             for sp in gen_loop(shape, k, rng):
                 specs.append((sp, True, "loop-%s%d" % (shape, k)))
-    for _ in range(1200 if ck.quick else 30000):
+    # k = 4 over <= 2 exits with back edges, all graphs up to renaming (31712): every graph whose entry is a loop
+    # header (21199) + a seeded 20 % of the others; all of them when thorough / escalated
+    for sp, hdr in gen_canonical(4, 2, rng):
+        if hdr or big or rng.random() < 0.2:
+            specs.append((sp, False, "exh-k4-entryloop" if hdr else "exh-k4-other"))
+    for _ in range(40000 if big else 4000):
+        sp = gen_random_cyclic(rng, rng.randrange(4, 8), rng.randrange(0, 4), rng.randrange(1, 3))
+        specs.append((sp, acyclic(sp) and not sp.get("stmts"), "rand-cyclic"))
+    for _ in range(30000 if big else 1200):
         specs.append((gen_random_chain(rng, rng.randrange(4, 10), rng.randrange(2, 4)), True, "rand-chain"))
-    for _ in range(600 if ck.quick else 10000):
+    for _ in range(10000 if big else 600):
         k = rng.randrange(3, 7)
         sp = gen_random_graph(rng, k, rng.randrange(2, 4), rng.random() < 0.4)
         specs.append((sp, acyclic(sp), "rand-graph"))
@@ -699,8 +837,13 @@ def run(ck: Check):
     distinct = set()
     samples = []
     nevals = 0
-    for spec, ww, family in specs:
-        rq, rl, info = check_case(ck, spec, want_writer=ww, o2=family.startswith("exh-k"))
+    _real()                                 # import androguard before forking
+    jobs = [(spec, ww, family in ("exh-k2", "exh-k3")) for spec, ww, family in specs]
+    with multiprocessing.get_context("fork").Pool(min(16, os.cpu_count() or 1)) as pool:
+        results = pool.map(_work, jobs, chunksize=64)
+    for (spec, ww, family), (rq, rl, info, fails) in zip(specs, results):
+        for f in fails:
+            ck.fail(*f)
         reqs += rq; real += rl
         nevals += 1
         fam[family] = fam.get(family, 0) + 1
